@@ -580,7 +580,8 @@ def make_stubs(extra=None):
     s = dict(BASE)
     for k, v in INTRINSICS.items():
         s['intr:' + k] = v
-    s['prefix'] = default_prefix_stubs() + ext_prefixes()
+    getter = lambda ex, st, a, c: z3.BitVec(ex.newsym('nb'), 64)
+    s['prefix'] = default_prefix_stubs() + ext_prefixes() + [('opaque:cs.GetNb', getter), ('opaque:pk.Nb', getter), ('opaque:vk.Nb', getter)]
     if extra:
         for k, v in extra.items():
             if k == 'prefix':
@@ -2404,3 +2405,57 @@ def signal_Notify2(ex, st, args, ctx):
 
 BASE.update({'os/signal.NotifyContext': signal_NotifyContext, 'verif:signal_stop': signal_unsubscribe, 'os/signal.Stop': signal_unsubscribe, 'os/signal.Reset': signal_unsubscribe,
              'os/signal.Ignore': signal_unsubscribe, 'opaque:context.Done': context_Done, 'os/signal.Notify': signal_Notify2})
+
+
+def stream_Read(ex, st, args, ctx):
+    used('io.Reader.Read on a file: fills the buffer while data remains, returns what is left (possibly fewer bytes) at the cut, and (0, io.EOF) from then on; a loop that keeps reading at EOF never ends')
+    s_ = stream_of(args[0])
+    buf = args[1]
+    n = buf.len
+    if not isinstance(n, int):
+        raise Unsupported('Read into a buffer of symbolic length')
+    d = ostate(st, s_)
+    pos, toks = d['pos'], d['tokens']
+    at_end = pos >= len(toks)
+    if n == 0:
+        return (bvval(0, 64), NIL)
+
+    def eof(s2):
+        d2 = ostate(s2, s_)
+        k = d2.get('eof_reads', 0) + 1
+        oset(s2, s_, eof_reads=k)
+        if k >= 3:
+            raise PathEnd('panic', 'hang: the stream is read again and again at end of file (a read loop that ignores io.EOF never terminates) at %s' % ctx['pos'])
+        return (bvval(0, 64), EOF_ERR)
+    if at_end:
+        return eof(st)
+    t = toks[pos]
+    if t[0] != 'bytes':
+        raise Unsupported('Read in the middle of a %s section' % t[1])
+    done = d.get('tokoff', 0)
+    cells = t[1][done:]
+    k = min(n, len(cells))
+
+    def ok(s2):
+        for i in range(k):
+            ex.store(s2, ex.slice_cell_ptr(buf, i), cells[i])
+        d2 = ostate(s2, s_)
+        adv = done + k >= len(t[1])
+        oset(s2, s_, pos=pos + 1 if adv else pos, tokoff=0 if adv else done + k, off=(d2.get('off') + k) if d2.get('off') is not None else None, eof_reads=0)
+        return (bvval(k, 64), NIL)
+    if d.get('cut') is None:
+        return ok(st)
+    end = d['off'] + k
+    fits = z3.ULE(end, d['cut'])
+    nothing = z3.UGE(d['off'], d['cut'])
+
+    def partial(s2):
+        got = z3.simplify(d['cut'] - d['off'])
+        for i in range(k):
+            ex.store(s2, ex.slice_cell_ptr(buf, i), cells[i])
+        oset(s2, s_, pos=len(toks), off=d['cut'], eof_reads=0)
+        return (got, NIL)
+    return Forks([(fits, ok, None), (z3.And(z3.Not(fits), nothing), eof, None), (z3.And(z3.Not(fits), z3.Not(nothing)), partial, None)])
+
+
+BASE.update({'opaque:stream.Read': stream_Read})
